@@ -5,6 +5,7 @@ pub mod c01;
 pub mod c02;
 pub mod c03;
 pub mod c04;
+pub mod c05;
 pub mod c08;
 pub mod c10;
 pub mod c12;
@@ -35,6 +36,7 @@ table! {
     "C02" => c02::run, c02::replay;
     "C03" => c03::run, c03::replay;
     "C04" => c04::run, c04::replay;
+    "C05" => c05::run, c05::replay;
     "C08" => c08::run, c08::replay;
     "C10" => c10::run, c10::replay;
     "C12" => c12::run, c12::replay;
